@@ -11,7 +11,7 @@ from ..engine.repo import AnalysisError, dotted
 from ..engine.report import Check
 from ..engine.terms import C, Term, show, substitute, subterms
 from ..engine.walker import Event
-from .common import short
+from .common import functions_mentioning, short
 
 W = "skepticoin.wallet."
 WC = W + "Wallet"
@@ -137,8 +137,8 @@ class PersistAutomaton(Automaton):
 
 def r15_3(ck: Check, only_prefix: Optional[str] = None) -> None:
     sites = 0
-    for fi in ck.repo.all_functions():
-        if "get_annotated_public_key" not in ck.repo.src(fi.node) or fi.qualname.startswith(WC):
+    for fi in functions_mentioning(ck, "get_annotated_public_key"):
+        if fi.qualname.startswith(WC):
             continue
         s = ck.summ(fi.qualname, 0)
         hs = [e for e in s.events if e.kind == "call" and not e.chain and WC + ".get_annotated_public_key" in e.targets]
